@@ -444,9 +444,9 @@ def strengthenings(crate, solver, body, term):
         parts = []
         if i.streamlike and o.streamlike:
             if i.so() is not None and o.so() is not None and o.so() > i.so():
-                parts.append("order %s->%s" % (i.O, o.O))
+                parts.append("order %s->%s @retries=%s,bound=%s" % (i.O, o.O, i.R, i.B))
             if i.sr() is not None and o.sr() is not None and o.sr() > i.sr():
-                parts.append("retries %s->%s" % (i.R, o.R))
+                parts.append("retries %s->%s @order=%s,bound=%s" % (i.R, o.R, i.O, i.B))
             if (i.so() is None) != (o.so() is None) or (i.sr() is None) != (o.sr() is None):
                 parts.append("order/retries undecidable %s,%s->%s,%s" % (i.O, i.R, o.O, o.R))
         if i.kind != o.kind:
